@@ -81,6 +81,12 @@ def gen(ctx, profile, nscripts, nsteps, ai=1):
     out = []
     for job, path in gen_tables(ctx, jobs, module="Gen_Vi", timeout=2400):
         out += [json.loads(ln) for ln in open(path)]
+    for sc in out:
+        # a queue that would feed the text of a failing change to the command loop is not generated: the script ends before the
+        # repeat command that pushed it
+        if sc["steps"] and sc["steps"][-1]["kind"] == "cut":
+            k = max([i for i, s in enumerate(sc["steps"]) if s["kind"] in ("dot", "at")] or [0])
+            sc["steps"] = sc["steps"][:k]
     return out
 
 
